@@ -13,12 +13,16 @@ Driver of the C20 model (belief projection). One request line in, one response l
         one stored Assertion; its id is its ordinal (0,1,2…) in the case
   raise <ordinal> <conf>                 rewrite the stored confidence of one Assertion
   status <ordinal> <a|r|s|e|x>           rewrite its lifecycle status (RETRACT / SUPERSEDE / expiry)
+  retract <ordinal> <t|->                RETRACT ASSERTION at instant t (the model ignores t: no clock in the lifecycle stage)
+  supersede <old> <new> <t|->            SUPERSEDE ASSERTION old BY new at instant t (same)
   route <name>                           harness-side marker (which route the real code is driven by); `ok`
   project <target>
   slotproject                            every Proposition of the slot, `|`-separated
 
 modes: letters o(bserved) s(tated) i(nferred) p(redicted) h(ypothetical) m (imported), `-`/`e` = empty list;
 in `settings` a `?` letter is a value that is not a mode. A row's mode `?` = unparsable.
+Confidences and thresholds are numerators over the resolution `den` in force (`policy … <den> …`, or
+`10*k` after `settings k …`); the resolution must not change once an Assertion has been recorded.
 -/
 open AndaVerif.Belief AndaVerif.Drv
 
@@ -168,6 +172,19 @@ def step (st : St) (line : String) : St × String :=
     match i.toNat?, status? with
     | some i, some su =>
       ({ st with rows := st.rows.map (fun r => if r.id = i then { r with status := su } else r) }, "ok")
+    | _, _ => (st, "bad-op")
+  | ["retract", i, _t] =>
+    -- the instant of the retraction is not an input of the model: lifecycle exclusion has no clock
+    match i.toNat? with
+    | some i =>
+      ({ st with rows := st.rows.map (fun r => if r.id = i then { r with status := .retracted } else r) }, "ok")
+    | none => (st, "bad-op")
+  | ["supersede", i, j, _t] =>
+    match i.toNat?, j.toNat? with
+    | some i, some j =>
+      if j < st.rows.length ∧ i ≠ j then
+        ({ st with rows := st.rows.map (fun r => if r.id = i then { r with status := .superseded } else r) }, "ok")
+      else (st, "ok")
     | _, _ => (st, "bad-op")
   | ["project", target] =>
     match target.toNat? with
